@@ -67,7 +67,7 @@ def run(ctx):
         want = z3.And(*[D.iszero(x) for x in flat(a)])
         chk.must_unsat('%s.is_zero' % nm, z3.Xor(C.mk(iz), want), group='case-structure')
         # inverse (Fq12: layered over an abstract Fq6 below -- the monolithic degree is out of the solver's reach)
-        if nm == 'fq12':
+        if nm == 'fq12' or (nm == 'fq6' and ctx.tier != 'thorough'):
             continue
         n0 = len(D.inv_facts)
         st = State()
@@ -100,6 +100,7 @@ def run(ctx):
     ex6 = C.new_executor(ctx, D6.models())
     D6.install(ex6)
     V = D6.const_mul_syms['V']
+    chk.axioms += [D6.isz(z3.IntVal(0)), z3.Not(D6.isz(z3.IntVal(1)))]
 
     def a6(n):
         return FE('fq6::Fq6', z3.Int(n))
@@ -128,6 +129,47 @@ def run(ctx):
     r0 = ex.call(st, F + 'inverse', [rz])
     chk.ground('fq12.inverse(0) is None', isinstance(r0, Enum) and r0.disc == 0, repr(r0)[:80])
     chk.add_executor(ex6)
+
+    # ---- Fq6 over an abstract commutative ring B standing for Fq2, mul_by_nonresidue = multiplication by XI:  B[v]/(v^3 - XI)
+    D2 = _models.RingDomain(r'fq2::Fq2', 'Fq2', const_muls={r'fq2::Fq2::mul_by_nonresidue': 'XI'})
+    ex2 = C.new_executor(ctx, D2.models())
+    D2.install(ex2)
+    chk.axioms += [D2.isz(z3.IntVal(0)), z3.Not(D2.isz(z3.IntVal(1)))]
+    XIs = D2.const_mul_syms['XI']
+
+    def b2(n):
+        return FE('fq2::Fq2', z3.Int(n))
+
+    def m6a(x, y):
+        c = [0] * 5
+        for i in range(3):
+            for j in range(3):
+                c[i + j] = c[i + j] + x[i] * y[j]
+        return [c[0] + XIs * c[3], c[1] + XIs * c[4], c[2]]
+    a, b = Agg(T6, (b2('A0'), b2('A1'), b2('A2'))), Agg(T6, (b2('B0'), b2('B1'), b2('B2')))
+    la, lb = tolist(a), tolist(b)
+    F = '<%s as ff::Field>::' % T6
+    for meth, nargs, exp in [('mul_assign', 2, m6a(la, lb)), ('square', 1, m6a(la, la))]:
+        st = State()
+        ra, rb = ex2.alloc(st, a), ex2.alloc(st, b)
+        ex2.call(st, F + meth, [ra, rb][:nargs])
+        ident('fq6/B.%s (layered over abstract Fq2)' % meth, ex2.load(st, ra), exp, 'ring-identity')
+    st = State()
+    ra = ex2.alloc(st, a)
+    r = ex2.call(st, F + 'inverse', [ra])
+    if not (isinstance(r, Enum) and len(D2.inv_facts) == 1):
+        raise Inconclusive('fq6.inverse: expected exactly one Fq2 inversion')
+    t, n = D2.inv_facts[-1]
+    ident('fq6.inverse: out*in = (t*N)*1 over abstract Fq2', m6a(tolist(r.payload['Some'][0]), la), [t * n, 0, 0], 'ring-identity')
+    chk.must_unsat('fq6.inverse: Some iff Fq2 norm invertible', z3.Xor(r.disc == 1, z3.Not(D2.iszero(n))), group='case-structure')
+    a0_, a1_, a2_ = la
+    ident('fq6.inverse: norm handed down = a0^3 + XI a1^3 + XI^2 a2^3 - 3 XI a0 a1 a2', [n],
+          [a0_ * a0_ * a0_ + XIs * a1_ * a1_ * a1_ + XIs * XIs * a2_ * a2_ * a2_ - 3 * XIs * a0_ * a1_ * a2_], 'ring-identity')
+    st = State()
+    rz = ex.alloc(st, _const_like(fq6('z'), 0))
+    r0 = ex.call(st, F + 'inverse', [rz])
+    chk.ground('fq6.inverse(0) is None', isinstance(r0, Enum) and r0.disc == 0, repr(r0)[:80])
+    chk.add_executor(ex2)
 
     # ---- Fq2 specifics
     a = fq2('a')
